@@ -1401,6 +1401,9 @@ class Engine:
                             after = spec.decreases(Ctx(self, s2, entry=entry))
                             self.oblige(s2, 'III', f'loop{k}:terminates', z3.And(after < before, before >= 0), line)
                 elif o == ('break',):
+                    if hasattr(spec, 'break_post'):
+                        for name, e in spec.break_post(Ctx(self, s, entry=entry, pre=pre_iter)):
+                            self.oblige(s, 'III', f'loop{k}:break:{name}', e, line)
                     outs.append((s, NORMAL))
                 else:
                     outs.append((s, o))      # return / throw out of the loop
